@@ -73,6 +73,46 @@ pub fn recursive_strategy() -> impl Strategy<Value = Case> {
         })
 }
 
+/// Operations built on *partial* lookups (mkdir_all) and on parent lookups, with a path
+/// that climbs back through '..' past existing directories before it names what is to
+/// be created, while the attacker moves or exchanges one of those directories; with and
+/// without NO_SYMLINKS (which changes what the resolver re-checks after '..').
+pub fn climbing_strategy() -> impl Strategy<Value = Case> {
+    (
+        tree_recipe(5),
+        prop_oneof![1 => Just(Kcfg::NoMountApi), 4 => Just(Kcfg::NoOpenat2NoMountApi), 1 => Just(Kcfg::NoOpenat2)],
+        any::<bool>(),
+        (0u8..6, 0u8..4, any::<bool>()),
+        prop_oneof![4 => Just(MutKind::MoveOut), 2 => Just(MutKind::ExchangeDir), 1 => (0u8..3).prop_map(MutKind::ExchangeLinkDotdot), 1 => Just(MutKind::ExchangeLinkOutsideDir), 1 => Just(MutKind::Remove)],
+        any::<u16>(),
+        0u8..3,
+    )
+        .prop_map(|(tr, kcfg, no_symlinks, (shape, opk, capi), kind, target, restore_after)| {
+            let mut tree = build_tree(&tr);
+            for d in ["p", "p/q", "p/q/r"] {
+                if tree.node(&B::new(d)).is_none() {
+                    tree.entries.push((B::new(d), Node::Dir { mode: 0o755 }));
+                }
+            }
+            let path = B::new(match shape {
+                0 => "p/q/../../pwn/d",
+                1 => "p/q/../pwn",
+                2 => "p/q/r/../../../pwn/x/y",
+                3 => "p/../pwn/d",
+                4 => "p/q/../../p/q/../../pwn",
+                _ => "p/q/r/../../new0/new1",
+            });
+            let op = match opk {
+                0 | 1 => Op::MkdirAll { path, mode: 0o755 },
+                2 => Op::Mkdir { path, mode: 0o755 },
+                _ => Op::CreateFile { path, flags: libc::O_RDWR | libc::O_EXCL, mode: 0o600 },
+            };
+            // the C API has no resolver flags
+            let capi = capi && !no_symlinks;
+            Case { tree, kcfg, no_symlinks, capi, op, muts: vec![(0u16, MutRecipe { kind, target, parent: false, restore_after })], enumerate: true, only_placement: None, placement_cap: Some(64) }
+        })
+}
+
 #[derive(Clone, Debug, Serialize, Deserialize)]
 pub struct RunRec {
     /// index of this run in the case's schedule list (what only_placement names)
@@ -470,6 +510,9 @@ fn run_lane(ctx: &Ctx, lr: &mut LaneResult) {
         search(ctx, lr, "frame-attacked", ctx.tier.pick(560, 5600), strategy(true), &check);
     }
     if lr.violations.is_empty() {
+        search_opts(ctx, lr, "frame-attacked-climbing", ctx.tier.pick(480, 4800), climbing_strategy(), &check, 12);
+    }
+    if lr.violations.is_empty() {
         search_opts(ctx, lr, "frame-attacked-recursive", ctx.tier.pick(192, 1920), recursive_strategy(), &check, 12);
     }
 }
@@ -483,7 +526,7 @@ fn replay(_ctx: &Ctx, _check: &str, case: &Value) -> Result<(), Fail> {
 pub const PROP: Prop = Prop {
     id: "C03",
     level: "exploration",
-    rule: "generated tree x one mutating operation (create of every inode kind incl. symlink and hardlink, create_file with flag sets incl. O_PATH, mkdir_all, remove_file, remove_dir, remove_all, rename with flags; Rust and C API) with argument paths weighted towards final '..'/'.', only-'..', absolute, through links that leave the root, trailing slashes x backend x attacker schedule (none; or one mutation at EVERY placement point of the operation's own syscall trace; or 2-3 sampled placements; targets = names the operation touches, existing or about to be created); plus a directed driver: remove_all of a generated wide/deep directory while one of the entries its recursion touches is exchanged for a link leaving the root / a foreign directory / moved out, at every placement point (sample of 200 when there are more). Oracle (frame condition over the whole sandbox, which contains the root's parent, sibling directories with the same names, a stash and an 'outside' tree): every object that was never inside the root is still at its path with the same identity, type, mode, owner, size, content hash and link body; no new entry appears in a directory that was never inside (attacker's own logged objects excepted); a returned descriptor refers to an object that is, or whose parent is, ever-inside; descriptor table intact; no panic. evaluations = operation runs; non-trivial = argument lexically leaves the root / ends in '.' or '..' / is absolute, or the tree has links leaving the root, or an attacker mutation was applied; distinct by (tree, op, kcfg, placements, mutations, api)",
+    rule: "generated tree x one mutating operation (create of every inode kind incl. symlink and hardlink, create_file with flag sets incl. O_PATH, mkdir_all, remove_file, remove_dir, remove_all, rename with flags; Rust and C API) with argument paths weighted towards final '..'/'.', only-'..', absolute, through links that leave the root, trailing slashes x backend x attacker schedule (none; or one mutation at EVERY placement point of the operation's own syscall trace; or 2-3 sampled placements; targets = names the operation touches, existing or about to be created); plus two directed drivers: mkdir_all / mkdir / create_file with a path that climbs back through '..' past existing directories before naming what is created (with and without NO_SYMLINKS) while one of those directories is moved out, exchanged or removed at every placement point; and remove_all of a generated wide/deep directory while one of the entries its recursion touches is exchanged for a link leaving the root / a foreign directory / moved out, at every placement point (sample of 200 when there are more). Oracle (frame condition over the whole sandbox, which contains the root's parent, sibling directories with the same names, a stash and an 'outside' tree): every object that was never inside the root is still at its path with the same identity, type, mode, owner, size, content hash and link body; no new entry appears in a directory that was never inside (attacker's own logged objects excepted); a returned descriptor refers to an object that is, or whose parent is, ever-inside; descriptor table intact; no panic. evaluations = operation runs; non-trivial = argument lexically leaves the root / ends in '.' or '..' / is absolute, or the tree has links leaving the root, or an attacker mutation was applied; distinct by (tree, op, kcfg, placements, mutations, api)",
     assumptions: &["link counts and time stamps are not compared (unlinking an inside name of a hard-linked inode legitimately changes them)", "pre-emption granularity is the library's own system calls"],
     lanes: |_| 16,
     run_lane,
